@@ -85,7 +85,7 @@ func (c09) inChild(h *core.History) *core.Outcome {
 			kind = "out-of-memory"
 		}
 		return &core.Outcome{Viol: &core.Violation{Oracle: "process-survives", Sig: "C09|" + key + "|process-dies|" + kind,
-			Detail: fmt.Sprintf("sub-scenario %s, program %q: the interpreter process died: %v %s", h.Strs["sub"], h.Strs["key"], err, trunc(tailStr(msg, 300), 300))},
+			Detail: fmt.Sprintf("sub-scenario %s, program %q: the interpreter process died: %v %s", h.Strs["sub"], h.Strs["key"], err, fatalLines(msg))},
 			Stats: core.Stats{Shape: shapeOf([]string{key, "died"}), Children: 1, Nontrivial: true}}
 	}
 	var o core.Outcome
@@ -535,7 +535,7 @@ func (c09) execNoPoll(h *core.History) *core.Outcome {
 			Detail: fmt.Sprintf("%q with the virtual deadline at tick %d: the evaluation never polled the context again and did not return (child killed after 45 s of real time)", prog, h.C("fireat"))}
 	case err != nil:
 		class = "died"
-		o.Viol = &core.Violation{Oracle: "process-survives", Sig: "C09|nopoll|process-survives|" + key, Detail: fmt.Sprintf("%q: %v %s", prog, err, trunc(tailStr(eb.String(), 300), 300))}
+		o.Viol = &core.Violation{Oracle: "process-survives", Sig: "C09|nopoll|process-survives|" + key, Detail: fmt.Sprintf("%q: %v %s", prog, err, fatalLines(eb.String()))}
 	default:
 		var rep struct {
 			Class      string `json:"class"`
@@ -611,7 +611,7 @@ func (c09) execMemory(h *core.History) *core.Outcome {
 		case strings.Contains(msg, "fatal error"):
 			kind = "fatal-error"
 		}
-		fail("process-survives", fmt.Sprintf("%q (MaxDepth=%d, GOMEMLIMIT=64MiB, RLIMIT_AS=4GiB): the interpreter process died: %v [%s] %s", prog, h.C("maxdepth"), err, kind, trunc(tailStr(msg, 300), 300)))
+		fail("process-survives", fmt.Sprintf("%q (MaxDepth=%d, GOMEMLIMIT=64MiB, RLIMIT_AS=4GiB): the interpreter process died: %v [%s] %s", prog, h.C("maxdepth"), err, kind, fatalLines(msg)))
 		o.Viol.Sig += "|" + kind
 	} else {
 		var rep c09Report
@@ -646,4 +646,22 @@ func (c09) execMemory(h *core.History) *core.Outcome {
 	}
 	st.Shape = shapeOf([]string{"memory", key, class, fmt.Sprint(h.F("simmem"))})
 	return o
+}
+
+// fatalLines keeps, from a dead child's stderr, only what does not vary between runs: the "fatal error:"/"panic:"
+// lines (no addresses, goroutine numbers or stack frames, which depend on GOMAXPROCS and ASLR).
+func fatalLines(stderr string) string {
+	var keep []string
+	for _, l := range strings.Split(stderr, "\n") {
+		if strings.HasPrefix(l, "fatal error:") || strings.HasPrefix(l, "panic:") || strings.HasPrefix(l, "runtime: goroutine stack exceeds") {
+			keep = append(keep, strings.TrimSpace(l))
+		}
+		if len(keep) >= 3 {
+			break
+		}
+	}
+	if len(keep) == 0 {
+		return "(no fatal error line on stderr)"
+	}
+	return strings.Join(keep, " | ")
 }
